@@ -123,7 +123,14 @@ def _units(prop_est, name):
             want = z3.If(cond, z3.StringVal(CATS[key]), want)
         h.ensures("category.first_reason", z3.Implies(z3.And(*third_f.axis.facts()), cat.t == want), replay=rp)
         h.ensures("category.expected_in_model_frames", z3.And(z3.Implies(z3.And(*rep_f.axis.facts()), rep_f.col("unit_category").t == z3.StringVal("expected")), z3.Implies(z3.And(*nonrep_f.axis.facts()), nonrep_f.col("unit_category").t == z3.StringVal("expected"))))
-        h.ensures("reporting_flag", z3.And(rep_f.col("reporting").t == 1, nonrep_f.col("reporting").t == 0, third_f.col("reporting").t == 0))
+        def rp_flag(ev):
+            d = rp(ev)
+            # the generic unit of the counter-model (a third-frame unit at or above the threshold, say) in a real election:
+            # the flag column is 1 on the fitting frame and 0 on every other row
+            d["check"] = "result['exc'] is None and result['flags_ok']"
+            return d
+
+        h.ensures("reporting_flag", z3.And(z3.Implies(z3.And(*rep_f.axis.facts()), rep_f.col("reporting").t == 1), z3.Implies(z3.And(*nonrep_f.axis.facts()), nonrep_f.col("reporting").t == 0), z3.Implies(z3.And(*third_f.axis.facts()), third_f.col("reporting").t == 0)), replay=rp_flag)
         for e in prop_est:
             r = rep_f.col(f"residuals_{e}")
             last = rep_f.col(f"last_election_results_{e}").t
